@@ -131,6 +131,53 @@ fn main() {
             props::c08::run(&tier, seed, &out);
             0
         }
+        "wild-scan" => {
+            // offline helper: states near capture-rich roots that have a mate in one and whose
+            // depth-1 search is large but finishes (used to pick the wild positions of C08)
+            use crate::refchess::Pos;
+            let roots = [
+                "r3k2r/Pppp1ppp/1b3nbN/nP6/BBP1P3/q4N2/Pp1P2PP/R2Q1RK1 w kq - 0 1",
+                "r2q1rk1/pP1p2pp/Q4n2/bbp1p3/Np6/1B3NBn/pPPP1PPP/R3K2R b KQ - 0 1",
+                "rnbq1k1r/pp1Pbppp/2p5/8/2B5/8/PPP1NnPP/RNBQK2R w KQ - 1 8",
+                "r4rk1/1pp1qppp/p1np1n2/2b1p1B1/2B1P1b1/P1NP1N2/1PP1QPPP/R4RK1 w - - 0 10",
+                "r3k2r/p1ppqpb1/bn2pnp1/3PN3/1p2P3/2N2Q1p/PPPBBPPP/R3K2R w KQkq - 0 1",
+            ];
+            let depth: usize = arg(&args, "--plies").and_then(|x| x.parse().ok()).unwrap_or(2);
+            let lo: u64 = arg(&args, "--lo").and_then(|x| x.parse().ok()).unwrap_or(1_200_000);
+            let hi: u64 = arg(&args, "--hi").and_then(|x| x.parse().ok()).unwrap_or(8_000_000);
+            let mut seen = std::collections::HashSet::new();
+            let mut states: Vec<Pos> = Vec::new();
+            let mut frontier: Vec<Pos> = roots.iter().flat_map(|f| { let p = Pos::from_fen(f).unwrap(); vec![p.mirror(), p] }).collect();
+            for layer in 0..=depth {
+                let mut next = Vec::new();
+                for p in frontier {
+                    if seen.insert(p.fen4()) {
+                        if layer < depth {
+                            for m in p.legal_moves() {
+                                next.push(p.make(m));
+                            }
+                        }
+                        states.push(p);
+                    }
+                }
+                frontier = next;
+            }
+            let cands: Vec<Pos> = par::par_map(&states, |p| { let c = props::c08::analyse(p); if c.attack_case() || c.defence_case() { Some(p.clone()) } else { None } }).into_iter().flatten().collect();
+            eprintln!("{} states, {} with a mate in one or mixed moves", states.len(), cands.len());
+            let out: Vec<Option<(String, u64, bool)>> = par::par_map(&cands, |p| {
+                timer::verif::set_node_clock(Some(1));
+                let b = eng::board_of(p).ok()?;
+                let mut s = search::Searcher::new();
+                s.find_best_move(&b, 1, Some(std::time::Duration::from_millis(hi)));
+                let n = s.verif_nodes();
+                let finished = timer::verif::first_stop().is_none();
+                if n >= lo { Some((p.fen4(), n, finished)) } else { None }
+            });
+            for x in out.into_iter().flatten() {
+                println!("{} nodes={} finished={}", x.0, x.1, x.2);
+            }
+            0
+        }
         "c08-one" => props::c08::replay(&arg(&args, "--fen").unwrap(), arg(&args, "--depth").unwrap().parse().unwrap(), arg(&args, "--mode").as_deref() == Some("attack")),
         "c09" => {
             props::c09::run(&tier, seed, &out);
